@@ -357,7 +357,7 @@ fn chain_cases(_profile: &'static str) -> impl Fn(Tier) -> BoxedStrategy<Case> +
                 // positive raw input if the tree needs it; trees that are out of domain even then are re-drawn structurally:
                 let positive = spec.needs_positive_input();
                 let cfg = if positive { cfg.positive() } else { cfg };
-                gen::stream(cfg).prop_map(move |xs| Case { spec: Some(spec.clone()), xs, ints: vec![scalar, pattern], a: Rat(1, 1), ..Default::default() })
+                gen::stream_nz(cfg).prop_map(move |xs| Case { spec: Some(spec.clone()), xs, ints: vec![scalar, pattern], a: Rat(1, 1), ..Default::default() })
             })
             .boxed()
     }
